@@ -21,8 +21,9 @@ ASSUMPTIONS = [
     "library counts them as 0.5*(1e-14/a_ref)^(1/b), which is added to the tolerance",
     "when an excursion attains its largest |value| more than once the statement does not say which index is reported: the series are "
     "then compared at the end of the record only (plus length and monotonicity)",
-    "power-law clause: series are rescaled (by a power of two) to max|x| >= 1e-3: the library represents a below-cut-off peak by the "
-    "absolute amplitude 1e-14, which only means 'negligible' for records whose amplitudes dwarf it",
+    "power-law clause with cut_off > 0: series are rescaled (by a power of two) to max|x| >= 1e-3: the library represents a "
+    "below-cut-off peak by the absolute amplitude 1e-14, which only means 'negligible' for records whose amplitudes dwarf it; "
+    "with cut_off = 0 nothing is replaced and the series is additionally put into small / large units (x 2^-50 .. 2^40)",
     "b in (0.05, 1], cut_off in [0, 0.1], a_ref and the peak amplitudes within a factor 1e3 of each other so that ratios^(1/b) stay finite",
 ]
 EPS = np.finfo(float).eps
@@ -144,6 +145,7 @@ def _pl_cases(draw):
     c["aref_rel"] = draw(gen.log_uniform(0.05, 20.0))
     c["ncyc"] = draw(gen.log_uniform(0.5, 50.0))
     c["alpha"] = draw(gen.scalars(1e-2, 1e2))
+    c["unit"] = draw(st.sampled_from([0, 0, -20, -33, -50, 20, 40]))
     return c
 
 
@@ -167,12 +169,27 @@ def power_law(case, ctx):
     if ref.is_constant(a):
         a = a.copy()
         a[-1] += 1.0
-    if float(np.max(np.abs(a))) < 1e-3:
-        # the library replaces below-cut-off peaks by the ABSOLUTE placeholder 1e-14: amplitudes must dwarf it (ASSUMPTIONS)
-        a = a * 2.0 ** int(np.ceil(-np.log2(float(np.max(np.abs(a))))))
+    cut = case["cut"]
+    if cut > 0:
+        if float(np.max(np.abs(a))) < 1e-3:
+            # the library replaces below-cut-off peaks by the ABSOLUTE placeholder 1e-14: amplitudes must dwarf it (ASSUMPTIONS)
+            a = a * 2.0 ** int(np.ceil(-np.log2(float(np.max(np.abs(a))))))
+    else:
+        # cut_off = 0: nothing is replaced by the placeholder, so every law holds in any unit (strain, micro-tremor
+        # displacement in metres, raw counts): exact power-of-two change of unit - as long as |peak|^(1/b) stays inside the
+        # double range (b = 0.05 raises amplitudes to the 20th power); otherwise the series is normalised to max|x| = 1
+        bmin = min([case["b"]] + list(case["barr"]))
+        scaled = a * 2.0 ** case.get("unit", 0)
+        top = float(np.max(np.abs(scaled)))
+        if top > 0 and abs(np.log10(top)) / bmin < 200:
+            if case.get("unit"):
+                ctx.cls("small-unit" if case["unit"] < 0 else "large-unit")
+            a = scaled
+        else:
+            a = a * 2.0 ** int(np.ceil(-np.log2(float(np.max(np.abs(a))))))
+            ctx.cls("unit-normalised")
     n = len(a)
     b = case["b"]
-    cut = case["cut"]
     amax = float(np.max(np.abs(a)))
     aref = case["aref_rel"] * amax
     ncyc = case["ncyc"]
@@ -186,7 +203,7 @@ def power_law(case, ctx):
     keep = pv >= cut * amax
     contrib_n = np.where(keep, LD(0.5) * (pv / LD(aref)) ** (LD(1) / LD(b)), LD(0))
     nref = _ref_series(a, peaks, contrib_n)
-    slack_n = len(peaks) * 0.5 * (1e-14 / aref) ** (1.0 / b)
+    slack_n = len(peaks) * 0.5 * (1e-14 / aref) ** (1.0 / b) if cut > 0 else 0.0
     ns = np.asarray(ctx.lib(im.calc_n_cyc_array_w_power_law, a, aref, b, cut_off=cut))
     ctx.check(ns.shape[0] == n, "cycle series has length %s, record %d" % (ns.shape, n))
     ns1 = ns.reshape(n, -1)[:, 0]
